@@ -119,6 +119,52 @@ def mutate(rng, s):
     return s[:i] + rng.choice("[]()UOXuox∧∨⊻1P. \tB9") + s[i:]
 
 
+_CONFUSABLE = None
+
+
+def confusable_indicators():
+    """Requirement indicators in which a letter (or letter pair) is replaced by a character that str.upper(), str.lower(), str.casefold() or a Unicode
+    normalisation form maps onto it: 'Muß' (upper() = 'MUSS'), 'Muſs', 'Kann' with the Kelvin sign, full-width and enclosed letters ... The regular
+    expressions of the grammar and Python's string methods disagree on some of them, so a shortcut that normalises the text itself instead of asking the
+    parser accepts what the parser rejects (or the other way round). Bare and followed by a condition."""
+    global _CONFUSABLE
+    if _CONFUSABLE is None:
+        import unicodedata
+
+        words = ["Muss", "Soll", "Kann", "M", "S", "K", "X", "O", "U"]
+        pieces = sorted({w[i:j].upper() for w in words for i in range(len(w)) for j in range(i + 1, min(len(w), i + 2) + 1)})
+        table = {}
+        for cp in range(0x80, 0x30000):
+            c = chr(cp)
+            if 0xD800 <= cp <= 0xDFFF:
+                continue
+            imgs = {c.upper(), c.lower().upper(), c.casefold().upper()}
+            for form in ("NFKC", "NFKD"):
+                imgs.add(unicodedata.normalize(form, c).upper())
+            for img in imgs:
+                if img in pieces:
+                    table.setdefault(img, []).append(c)
+        out = []
+        for w in words:
+            for piece, chars in table.items():
+                start = 0
+                while True:
+                    i = w.upper().find(piece, start)
+                    if i < 0:
+                        break
+                    for c in chars[:6]:
+                        out.append(w[:i] + c + w[i + len(piece):])
+                    start = i + 1
+        seen, res = set(), []
+        for x in out:
+            for y in (x, x + "[1]", x + " [1] U [2]"):
+                if y not in seen:
+                    seen.add(y)
+                    res.append(y)
+        _CONFUSABLE = res
+    return _CONFUSABLE
+
+
 def garbage(rng, n):
     alpha = "[]()UOXuox∧∨⊻0123456789P.B \t\nMSKabc-_,;ſK٣１" + META
     return "".join(rng.choice(alpha) for _ in range(n))
